@@ -46,6 +46,9 @@ func main() {
 	case "worker":
 		fs.Parse(os.Args[3:])
 		os.Exit(runner.RunWorker(ck, *tier, *seed, *shard, *shards, *fromPhase, *fromIdx))
+	case "single":
+		fs.Parse(os.Args[3:])
+		os.Exit(runner.RunSingle(ck, *tier, *seed, *fromPhase, *fromIdx))
 	case "replay":
 		if len(os.Args) < 4 {
 			fmt.Println("usage: vcheck replay <ID> <file>")
